@@ -21,6 +21,7 @@ FIXES = [
     ('directionality-indices', 'fix: directionality values and matrix use', ['C14', 'C18']),
     ('directionality-empty', 'fix: normalised spike_directionality of a train', ['C18', 'C12']),
     ('time-series-one-row', 'fix: import_spike_trains_from_time_series', ['C19']),
+    ('get-tau-inplace-mrts', 'fix: get_tau of the Python backend no longer divides', ['C12']),
 ]
 
 
@@ -36,7 +37,10 @@ def sh(*a, **kw):
 def main():
     log = sh('git', '-C', '/repo', 'log', '--format=%H %s').stdout.splitlines()
     out = []
+    only = sys.argv[1:]
     for slug, prefix, props in FIXES:
+        if only and slug not in only:
+            continue
         commit = [l.split()[0] for l in log if l.split(' ', 1)[1].startswith(prefix)]
         assert len(commit) == 1, (prefix, commit)
         wt = '/tmp/scratch/wt-' + slug
@@ -56,7 +60,7 @@ def main():
         for prop in props:
             for f in glob.glob(os.path.join(VERIF, 'replays', prop + '-*.json')):
                 os.remove(f)
-            env = dict(os.environ, VERIF_REPO=wt)
+            env = dict(os.environ, VERIF_REPO=wt, VERIF_EVIDENCE_DIR='/tmp/scratch/corpus-ev')
             p = sh('/venv/bin/python', os.path.join(VERIF, 'check.py'), 'run', prop, '--runs', '6000', env=env)
             lines = [l for l in p.stdout.splitlines() if l.startswith('VIOLATION')]
             print(slug, prop, 'rc=%d' % p.returncode, len(lines), 'violation line(s)')
